@@ -37,15 +37,30 @@ const FAULTS: &[(&str, &str)] = &[
     ("class A { int v = 1; }\ndef d : A { let v = \"s\"; }\n", "\"s\""),                          // type-incompatible override
     ("defvar v = !add(1);\n", "!add(1)"),                                                           // wrong operator arity
     ("class A;\nclas B;\n", "clas B"),                                                                // syntax error in the root
+    ("class A<int x>;\nmulticlass M<int y> { def _a : A<y, 2>; }\ndefm m : M<1>;\n", "A<y, 2>"),              // surplus template argument inside a multiclass body
+    ("class A<int x>;\nmulticlass M<int y> { def _a : A<y>; }\ndefm m : M<1, 2>;\n", "M<1, 2>"),              // surplus template argument of a defm
+    ("class A<int x>;\nmulticlass M<int y> { def _a : A<y>; }\ndefm m : M;\n", "M;"),                        // missing template argument of a defm
+    ("class A<int x>;\nmulticlass M<int y> { def _a : A<y>; }\ndefm m : M<\"s\">;\n", "\"s\""),          // type-incompatible argument of a defm
+    ("class A { int v = 1; }\nforeach i = [1, 2] in { def d#i : A { let v = undefined_in_loop; } }\n", "undefined_in_loop"), // undefined identifier in a foreach body
+    ("class A { int v = 1; }\nif !eq(1, 1) then { def t : A; } else { def e : Missing; }\n", "Missing"),     // undefined class in an else branch
+    ("class A { int v = 1; }\nlet v = \"s\" in { def d : A; }\n", "\"s\""),                               // type-incompatible value in a top-level let
+    ("class A { int v = 1; }\ndefset list<A> S = { def d : Nope; }\n", "Nope"),                              // undefined class inside a defset
+    ("class A<int x> { int v = x; }\ndefvar c = A<1, 2>.v;\n", "A<1, 2>"),                                   // surplus template argument of a class value
+    ("class A<int x> { int v = x; }\ndef d : A<y = 1>;\n", "y"),                                             // named argument that does not exist
+    ("class A { int v = 1; }\ndefvar w = A<>.nofield;\n", "nofield"),                                        // undefined field
+    ("defvar v = !foldl(0, [1], acc);\n", "!foldl(0, [1], acc)"),                                             // wrong operator arity (foldl)
 ];
 #[test]
 fn one_seeded_fault_is_diagnosed_at_its_site() {
+    // every fault is tried; all undiagnosed ones are reported together (one line each)
+    let mut missed = vec![];
     for (prog, site) in FAULTS {
         let d = diags(&[("/root.td", prog)]);
         let s = prog.find(site).unwrap();
         let e = s + site.len();
-        assert!(d[0].iter().any(|(a, b, _)| *a < e && *b > s), "WITNESS no diagnostic covers the seeded site {site:?} ({s}..{e}) of {prog:?}: {:?}", d[0]);
+        if !d[0].iter().any(|(a, b, _)| *a < e && *b > s) { missed.push(format!("WITNESS no diagnostic covers the seeded site {site:?} ({s}..{e}) of {prog:?}: {:?}", d[0])); }
     }
+    assert!(missed.is_empty(), "{}", missed.join("\n"));
 }
 #[test]
 fn a_fault_in_an_included_file_is_diagnosed_there_only() {
